@@ -230,6 +230,49 @@ func WorkerMain(p Prop, tier string, seed int64, shard, nshards int, outPath str
 	return 0
 }
 
+// WitnessMain replays a pinned known-finding witness in a worker process.
+func WitnessMain(p Prop, tier string, seed int64, file, outPath string) int {
+	f, err := os.Create(outPath)
+	if err != nil {
+		return 2
+	}
+	defer f.Close()
+	emit := func(v any) {
+		b, _ := json.Marshal(v)
+		f.Write(b)
+		f.Write([]byte("\n"))
+	}
+	b, err := os.ReadFile(file)
+	if err != nil {
+		emit(map[string]any{"fatal": err.Error()})
+		return 2
+	}
+	var doc struct {
+		Replay json.RawMessage `json:"replay"`
+	}
+	if err := json.Unmarshal(b, &doc); err != nil {
+		emit(map[string]any{"fatal": err.Error()})
+		return 2
+	}
+	wk, err := p.NewWorker(tier, seed)
+	if err != nil {
+		emit(map[string]any{"fatal": err.Error()})
+		return 2
+	}
+	defer wk.Close()
+	var res CaseResult
+	for try := 0; try < 5; try++ {
+		res = wk.Replay(doc.Replay)
+		if len(res.Viol) > 0 {
+			break
+		}
+	}
+	res.Case = "witness:" + filepath.Base(file)
+	emit(map[string]any{"result": res})
+	emit(map[string]any{"done": true})
+	return 0
+}
+
 type workerOut struct {
 	results  []CaseResult
 	inflight int
@@ -415,7 +458,29 @@ func ParentMain(p Prop, tier string, extraArgs []string) int {
 	}
 
 	sort.Slice(all, func(i, j int) bool { return all[i].Idx < all[j].Idx })
-	return report(p, tier, seed, all, inconclusive, start, n)
+
+	// pinned witnesses of recorded findings: replayed on every run; each prints
+	// its KNOWN-FINDING line only while it still fails.
+	witnessed := map[string]string{}
+	for _, f := range LoadFindings(root) {
+		if f.Kind != "finding" || f.Property != p.ID() || f.Witness == "" {
+			continue
+		}
+		out := filepath.Join(work, "witness-"+f.ID+".jsonl")
+		cmd := exec.Command(exe, "--witness", p.ID(), tier, strconv.FormatInt(seed, 10), filepath.Join(root, f.Witness), out)
+		cmd.Env = append(os.Environ(), "VERIF_ROOT="+root)
+		lf, _ := os.Create(filepath.Join(work, "witness-"+f.ID+".log"))
+		cmd.Stdout, cmd.Stderr = lf, lf
+		_ = cmd.Run()
+		lf.Close()
+		wo := readWorkerOut(out)
+		if len(wo.results) == 1 && len(wo.results[0].Viol) > 0 {
+			witnessed[f.ID] = wo.results[0].Viol[0].Kind + ": " + trunc(wo.results[0].Viol[0].Detail, 300)
+		} else if !wo.done {
+			witnessed[f.ID] = "witness replay crashed the worker"
+		}
+	}
+	return report(p, tier, seed, all, inconclusive, start, n, witnessed)
 }
 
 func tailFile(path string, n int) string {
@@ -430,7 +495,7 @@ func tailFile(path string, n int) string {
 	return string(b)
 }
 
-func report(p Prop, tier string, seed int64, all []CaseResult, inconclusive []string, start time.Time, planned int) int {
+func report(p Prop, tier string, seed int64, all []CaseResult, inconclusive []string, start time.Time, planned int, witnessed map[string]string) int {
 	root := Root()
 	findings := LoadFindings(root)
 	stats := map[string]int64{}
@@ -482,7 +547,13 @@ func report(p Prop, tier string, seed int64, all []CaseResult, inconclusive []st
 		}
 	}
 	for _, f := range findings {
-		if f.Kind == "finding" && f.Property == p.ID() && known[f.ID] > 0 {
+		if f.Kind != "finding" || f.Property != p.ID() {
+			continue
+		}
+		if w, ok := witnessed[f.ID]; ok {
+			known[f.ID]++
+			fmt.Printf("KNOWN-FINDING: property=%s %s (%s; pinned witness %s still fails: %s)\n", p.ID(), f.What, f.ID, f.Witness, w)
+		} else if known[f.ID] > 0 {
 			fmt.Printf("KNOWN-FINDING: property=%s %s (%s; seen %d times this run)\n", p.ID(), f.What, f.ID, known[f.ID])
 		}
 	}
